@@ -773,6 +773,21 @@ def sympy_to_casadi_dir(ctx, n_trees, depth):
                         st, _, _ = s2c_agree(stc, M[i, j], names, pts, None, {})
                         mech = sp_mechanism(minimal_sp(stc, M[i, j], names, pts, None, {})) if st == "bad" else "matrix_layout"
                         ctx.violation("sympy_to_casadi_value", mech, {"expr": str(M)[:300], "element": [i, j], "point": pt, "sympy_value": ref, "casadi_value": float(val[i, j])})
+    # user-supplied function maps with more than one argument (the callable receives every argument)
+    k2, k3 = sp.Function("k2"), sp.Function("k3")
+    multi = {
+        "variadic_two": (k2(X[0] + 1, X[1] * X[2]), {"k2": lambda *a: a[0] * 2 + sum(a[1:])}, {k2: lambda a, b: a * 2 + b}),
+        "strict_two": (sp.sin(k2(X[0], X[1])) + X[2], {"k2": lambda a, b: a - 3 * b}, {k2: lambda a, b: a - 3 * b}),
+        "variadic_three": (k3(X[0], X[1] ** 2, X[2]) * X[0], {"k3": lambda *a: a[0] + 10 * sum(a[1:])}, {k3: lambda a, b, c: a + 10 * (b + c)}),
+        "nested": (k2(k2(X[0], X[1]), X[2]), {"k2": lambda *a: a[0] * 2 + sum(a[1:])}, {k2: lambda a, b: a * 2 + b}),
+    }
+    mpts = [np.array([0.3, -1.2, 0.7]), np.array([-2.0, 0.5, 1.5]), np.array([1.1, 2.2, -0.4])]
+    for mname, (e, fd, rp) in multi.items():
+        st, det, _ = s2c_agree(stc, e, names, mpts, fd, rp)
+        ctx.tally("sympy_to_casadi:multi_argument_function_map")
+        ctx.count("s2c_multi_%s:%s" % (st, mname))
+        if st == "bad":
+            ctx.violation("sympy_to_casadi_value", "multi_argument_function_map", {"expr": str(e), "kind": mname, **det})
     # symbol table shared across conversions: same name -> same CasADi variable
     table = {}
     e1, t1 = stc(X[0] + X[1] * 2, symbols=table)
